@@ -1395,11 +1395,11 @@ Proof.
   - (* E_stz *) destruct T as ([Q1 Q2] & Q3 & _). apply okz_iff. auto.
   - apply (okz_own g ls t l IA IB Hl). rewrite E. reflexivity.
   - (* U_own n: n is not below a reclaimer's own record *)
-    destruct T as (Sc & _). apply Hone; [rewrite E; reflexivity|apply Sc|].
+    destruct T as (Sc & _). apply Hone; [reflexivity|apply Sc|].
     intros u lu m Hu Hm ->. assert (u <> t) as Hut by (intros ->; rewrite Hl in Hu; inversion Hu; subst lu; rewrite E in Hm; discriminate).
     pose proof (region_of g u lu n (b_thr _ _ IB u lu Hu) Hm) as (_ & R2 & _).
     apply (scan_above_region g ls IA IB u t lu l n (own_rec l) n Hut Hu Hm Hl); [rewrite E; reflexivity|reflexivity|exact Sc|exact R2].
-  - destruct T as (Sc & _). apply Hone; [rewrite E; reflexivity|apply Sc|].
+  - destruct T as (Sc & _). apply Hone; [reflexivity|apply Sc|].
     intros u lu m Hu Hm ->. assert (u <> t) as Hut by (intros ->; rewrite Hl in Hu; inversion Hu; subst lu; rewrite E in Hm; discriminate).
     pose proof (region_of g u lu n (b_thr _ _ IB u lu Hu) Hm) as (_ & R2 & _).
     apply (scan_above_region g ls IA IB u t lu l n (own_rec l) n Hut Hu Hm Hl); [rewrite E; reflexivity|reflexivity|exact Sc|exact R2].
@@ -1419,3 +1419,33 @@ Lemma log_ledger_ok g ls t l : Inv2 g ls -> nth_error ls t = Some l ->
 Proof.
   intros [IA IB] Hl. pose proof (b_thr _ _ IB t l Hl) as T. unfold thrB in T. destruct (at_ l); auto; tauto.
 Qed.
+
+(* packaged for the property files *)
+Lemma no_uaf_log unf progs s t l z : R unf progs s -> nth_error (thr s) t = Some l -> rec_access l = Some z -> okz (gl s) z = true.
+Proof. intros HR. apply log_access_ok. apply (R_Inv2 _ _ _ HR). Qed.
+Lemma ledger_log unf progs s t l : R unf progs s -> nth_error (thr s) t = Some l ->
+  match at_ l with
+  | R_constr _ z | E_constr _ _ _ z => cs_of (gl s) z = Some Alloc
+  | U_zd n _ => cs_of (gl s) n = Some Constr
+  | U_zf n _ => cs_of (gl s) n = Some Destr
+  | _ => True
+  end.
+Proof. intros HR. apply log_ledger_ok. apply (R_Inv2 _ _ _ HR). Qed.
+Lemma single_reclaimer unf progs s u v lu lv n m : R unf progs s ->
+  nth_error (thr s) u = Some lu -> nth_error (thr s) v = Some lv ->
+  region_pc (at_ lu) = Some n -> region_pc (at_ lv) = Some m -> u = v.
+Proof. intros HR. destruct (R_Inv2 _ _ _ HR) as [IA IB]. apply (one_reclaimer _ _ IA IB). Qed.
+(* a record is reclaimed only when every older record on the log is unowned, i.e. when no handle that
+   registered before it is still alive *)
+Lemma reclaim_needs_all_older_released unf progs s t l n c : R unf progs s ->
+  nth_error (thr s) t = Some l -> region_pc (at_ l) = Some n ->
+  inlog (gl s) c -> zsq (gl s) c < zsq (gl s) (own_rec l) -> zown (gl s) c = None.
+Proof.
+  intros HR Hl Hn Hc Hlt. destruct (R_Inv2 _ _ _ HR) as [IA IB].
+  pose proof (region_of _ t l n (b_thr _ _ IB t l Hl) Hn) as (_ & _ & _ & D). apply D; auto.
+Qed.
+(* the own record of a live, registered handle is on the log, constructed, and owned by that handle *)
+Lemma own_record_alive unf progs s u w z : R unf progs s ->
+  hnd (locof (thr s) u) = Some (w, Some z) ->
+  In z (zlog (gl s)) /\ cs_of (gl s) z = Some Constr /\ zown (gl s) z = Some (guard_of u w).
+Proof. intros HR. destruct (R_Inv2 _ _ _ HR) as [IA IB]. apply (b_own1 _ _ IB). Qed.
